@@ -1,6 +1,7 @@
 package sign
 
 import (
+	"errors"
 	"fmt"
 
 	"github.com/taurusgroup/multi-party-sig/internal/round"
@@ -19,6 +20,9 @@ const (
 
 func StartSignCommon(taproot bool, result *keygen.Config, signers []party.ID, messageHash []byte) protocol.StartFunc {
 	return func(sessionID []byte) (round.Session, error) {
+		if err := validateStart(result, signers, messageHash); err != nil {
+			return nil, fmt.Errorf("sign.StartSign: %w", err)
+		}
 		info := round.Info{
 			FinalRoundNumber: protocolRounds,
 			SelfID:           result.ID,
@@ -45,4 +49,39 @@ func StartSignCommon(taproot bool, result *keygen.Config, signers []party.ID, me
 			s_i:     result.PrivateShare,
 		}, nil
 	}
+}
+
+// validateStart refuses parameters that cannot lead to a valid signing session:
+// absent or incomplete key material, an empty message, too few signers, or
+// signers that are not shareholders.
+func validateStart(result *keygen.Config, signers []party.ID, messageHash []byte) error {
+	if result == nil || result.PrivateShare == nil || result.PublicKey == nil ||
+		result.VerificationShares == nil || len(result.VerificationShares.Points) == 0 {
+		return errors.New("config is nil or incomplete")
+	}
+	if result.PrivateShare.IsZero() || result.PublicKey.IsIdentity() {
+		return errors.New("config holds a zero share or an identity public key")
+	}
+	if len(messageHash) == 0 {
+		return errors.New("message is empty")
+	}
+	if result.Threshold < 0 || result.Threshold >= len(result.VerificationShares.Points) {
+		return fmt.Errorf("threshold %d is invalid for %d shareholders", result.Threshold, len(result.VerificationShares.Points))
+	}
+	if len(signers) <= result.Threshold {
+		return fmt.Errorf("%d signers are not enough for threshold %d", len(signers), result.Threshold)
+	}
+	self := false
+	for _, id := range signers {
+		if share, ok := result.VerificationShares.Points[id]; !ok || share == nil {
+			return fmt.Errorf("signer %q is not a shareholder", id)
+		}
+		if id == result.ID {
+			self = true
+		}
+	}
+	if !self {
+		return errors.New("signers do not include this party")
+	}
+	return nil
 }
